@@ -24,6 +24,8 @@ let c18_parse_fn (ar : Float64.t arith) toks : (Float64.t -> Float64.t) option *
     (Some (c18_tf_pwl ar ks), r)
   | "POW" :: k :: m :: c :: r ->
     (Some (c18_tf_pow ar (c18_unhex k) (c18_unhex m) (c18_unhex c)), r)
+  | "SHPOW" :: k :: r0 :: p :: r ->
+    (Some (c18_tf_shpow ar (c18_unhex k) (c18_unhex r0) (c18_nat (int_of_string p))), r)
   | _ -> failwith "bad function spec"
 let c18_root (ar : Float64.t arith) (toks : string list) : string =
   let (f, r) = c18_parse_fn ar toks in
